@@ -1569,6 +1569,20 @@ def fam_tls(rng, n, dist):
                 if fault == "unclean-close":
                     b.exp[-1]["may_throw"] = True
         out.append(b.scenario())
+    # always there (not left to the draw): a healthy TLS session logged out of with REIN answered 120 + the final reply in
+    # two pieces (two TLS records), then used again in clear text
+    for k, codes in enumerate([(120, 220), (120, 230), (120, 220)]):
+        b = S.Builder(rng, *ALL_METHODS[k % 4], type="I", tls=True, resume=(k == 0), tlsver=("13" if k == 2 else "12"), verify="trusted")
+        if k == 1:
+            b.add_observer(1)
+        b.connect(login=(b"user-MARKER-u", b"pass-MARKER-p"))
+        add_simple(b, rng, 200)
+        b.logout(codes=codes)
+        b.login(b"again", b"pw")
+        b.simple(b"NOOP", None, 200)
+        b.disconnect(True)
+        dist.add("tls:logout-answered-120-then-%d" % codes[1])
+        out.append(b.scenario())
     return out
 
 
